@@ -164,6 +164,7 @@ impl Scenario {
 
 struct StopToken;
 struct AbortToken;
+struct AccessBoundToken;
 
 #[derive(Clone, Copy, PartialEq)]
 enum Wait {
@@ -456,7 +457,9 @@ pub fn run_scenario(sc: &Scenario, dir: &Path, record_sites: bool, keep_events: 
             let r = catch_unwind(AssertUnwindSafe(|| reader_task(&shared, me, ri, &prog, &path)));
             set_handler(None);
             if let Err(payload) = r {
-                if !payload.is::<AbortToken>() {
+                if payload.is::<AccessBoundToken>() {
+                    shared.with_monitor(|m| m.violations.push(Violation { property: "C18", sig: "unbounded-accesses".into(), detail: format!("reader {} made more than {} shared accesses in one snapshot() call", ri, crate::history::ACCESS_BOUND) }));
+                } else if !payload.is::<AbortToken>() {
                     let msg = panic_text(&payload);
                     shared.with_monitor(|m| m.violations.push(Violation { property: "C02", sig: "reader-panic".into(), detail: format!("reader {} panicked: {}", ri, msg) }));
                 }
@@ -814,7 +817,14 @@ fn reinstall_reader_handler(local: &Rc<RefCell<ReaderLocal>>, shared: &Arc<Share
     set_handler(Some(Box::new(move |p: &Point| {
         if is_pre(p.site) {
             if p.site == "load.pre" || p.site == "rword.pre" {
-                l.borrow_mut().accesses += 1;
+                let n = {
+                    let mut r = l.borrow_mut();
+                    r.accesses += 1;
+                    r.accesses
+                };
+                if n > crate::history::ACCESS_BOUND {
+                    std::panic::panic_any(AccessBoundToken);
+                }
             }
             sh.yield_point(me, site_hash(p.site, p.word));
         } else if p.site == "load.post" {
@@ -835,7 +845,7 @@ pub fn install_quiet_panic_hook() {
     let default = std::panic::take_hook();
     std::panic::set_hook(Box::new(move |info| {
         let p = info.payload();
-        if p.is::<StopToken>() || p.is::<AbortToken>() {
+        if p.is::<StopToken>() || p.is::<AbortToken>() || p.is::<AccessBoundToken>() {
             return;
         }
         default(info);
